@@ -313,6 +313,9 @@ func (p *ReverseProxy) clusterInvoke(srv *BfeServer, cluster *bfe_cluster.BfeClu
 			request.Trans.Backend = nil
 		}
 		request.SetRequestTransport(clusterBackend, clusterTransport)
+		// incr connection num of new backend here, to pair with DecConnNum()
+		// above or in FinishReq() whatever HandleForward returns
+		request.Trans.Backend.IncConnNum()
 
 		log.Logger.Debug("ReverseProxy.Invoke(): before HandleForward backend %s:%d",
 			request.Trans.Backend.Addr, request.Trans.Backend.Port)
@@ -334,7 +337,6 @@ func (p *ReverseProxy) clusterInvoke(srv *BfeServer, cluster *bfe_cluster.BfeClu
 
 		// set backend addr to out request
 		backend := request.Trans.Backend
-		backend.IncConnNum()
 		setBackendAddr(outreq, backend)
 
 		// invoke backend
